@@ -547,7 +547,7 @@ func indexLed(p *parser, t *token, left *token) *token {
 	t.rename("index")
 	t.Append(left)
 	if p.Token.Symbol != ":" {
-		t.Append(p.Expression(0))
+		t.Append(p.Expression(commaBP))
 	} else {
 		t.Append(&token{Pos: p.Token.Pos, Symbol: "(int)", Text: "0"})
 	}
@@ -555,7 +555,7 @@ func indexLed(p *parser, t *token, left *token) *token {
 		t.rename("slice")
 		p.Advance(":")
 		if p.Token.Symbol != "]" {
-			t.Append(p.Expression(0))
+			t.Append(p.Expression(commaBP))
 		} else {
 			t.Append(&token{Pos: p.Token.Pos, Symbol: "(int)", Text: "-1"})
 		}
@@ -712,8 +712,8 @@ func init() {
 		"/": {Lbp: 120, Led: ledInfix},
 		"%": {Lbp: 120, Led: ledInfix},
 
-		"++":  {Lbp: 140, Led: ledPostfix},
-		"--":  {Lbp: 140, Led: ledPostfix},
+		"++":  {Lbp: 10, Led: ledPostfix}, // statements, like the assignments: never operands
+		"--":  {Lbp: 10, Led: ledPostfix},
 		".":   {Lbp: 150, Led: ledInfix},
 		"...": {Lbp: 150, Led: ellipsisLed},
 		"(":   {Lbp: 150, Nud: parenNud, Led: callLed},
